@@ -6,6 +6,7 @@ import (
 	"sort"
 	"strconv"
 	"strings"
+	"sync"
 
 	"github.com/drshriveer/gtools/set"
 	"gopkg.in/yaml.v3"
@@ -100,6 +101,46 @@ func (t *typedSet[T]) rt(codec, mode string, target set.Set[T]) string {
 	var err error
 	var shape string
 	switch {
+	case codec == "json" && mode == "direct":
+		// the Marshaler method called directly and its result RETAINED while another set is
+		// encoded (also concurrently) before the first encoding is consumed
+		data, err = t.s.MarshalJSON()
+		if err != nil {
+			return "err"
+		}
+		decoy := set.Make(t.uni...)
+		var wg sync.WaitGroup
+		for i := 0; i < 3; i++ {
+			wg.Add(1)
+			go func() { defer wg.Done(); _, _ = decoy.MarshalJSON(); _, _ = json.Marshal(decoy) }()
+		}
+		_, _ = decoy.MarshalJSON()
+		wg.Wait()
+		var v any
+		if json.Unmarshal(data, &v) != nil {
+			return "err-shape"
+		}
+		shape = shapeOf(v)
+		err = json.Unmarshal(data, &target)
+	case codec == "yaml" && mode == "direct":
+		var yv any
+		yv, err = t.s.MarshalYAML()
+		if err != nil {
+			return "err"
+		}
+		decoy := set.Make(t.uni...)
+		_, _ = decoy.MarshalYAML()
+		_, _ = yaml.Marshal(decoy)
+		data, err = yaml.Marshal(yv)
+		if err != nil {
+			return "err"
+		}
+		var v any
+		if yaml.Unmarshal(data, &v) != nil {
+			return "err-shape"
+		}
+		shape = shapeOf(v)
+		err = yaml.Unmarshal(data, &target)
 	case codec == "json" && mode == "standalone":
 		data, err = json.Marshal(t.s)
 		if err != nil {
@@ -397,7 +438,7 @@ func runC17(f *hx.Flags) {
 			lines = append(lines, strings.TrimSpace("set make "+src))
 		}
 		for _, codec := range []string{"json", "yaml"} {
-			for _, mode := range []string{"standalone", "field"} {
+			for _, mode := range []string{"standalone", "field", "direct"} {
 				tg := []string{"nil", "empty", pick(6), pick(20)}
 				for _, t := range tg {
 					if t == "" {
